@@ -21,7 +21,8 @@ EXPLANATION = (
     "_resolve_path use the same canonical base; (R5) the collected prefixes equal the directories the writers use."
     ' Also: (R1b) no skip path in the reachability loops; (R7) marker read precedes the metadata read; (R8) markers are removed only after the commit point; (R9) S3 listings are complete (paginator / NextContinuationToken) and confined; (R10) the collector honours every fresh marker (each non-stale *.inflight entry reaches protected.add; a payload naming a path determines the protected path).'
     " (R11) the collector's handler table (shared with C07.R1): a marker it cannot list / stat / read keeps protection in force or aborts."
-    ' (R12) who-may-delete census (shared with C09.R3); (R13) every data-file production site is dominated by _register_inflight for the same path (shared with C06.R10).')
+    ' (R12) who-may-delete census (shared with C09.R3); (R13) every data-file production site is dominated by _register_inflight for the same path (shared with C06.R10).'
+    ' (R14) the manifest parsers drop no entry (shared with C14.R7).')
 NOT_DECIDED = ("histories x location spellings at run time; that orphans are in fact removed; grace-period arithmetic")
 
 GC = "garbage_collector.GarbageCollector"
